@@ -142,6 +142,36 @@ impl QueryService {
 
 pub struct LocalPeerService {}
 impl LocalPeerService {
+    /// verification hook: public wrapper around the private room synchronisation routine
+    #[cfg(feature = "verif")]
+    pub async fn verif_synchronise_room(
+        room_id: Uid,
+        query_service: &QueryService,
+        peer_service: PeerConnectionService,
+        discret_services: &DiscretServices,
+    ) -> Result<(), crate::Error> {
+        Self::synchronise_room(room_id, query_service, peer_service, discret_services).await
+    }
+    /// verification hook: public wrapper around the private task that synchronises an acquired room
+    #[cfg(feature = "verif")]
+    pub async fn verif_process_acquired_room(
+        room: Uid,
+        acquired_lock: Arc<Mutex<HashSet<Uid>>>,
+        query_service: QueryService,
+        lock_service: RoomLockService,
+        peer_service: PeerConnectionService,
+        discret_services: &DiscretServices,
+    ) -> Result<(), crate::Error> {
+        Self::process_acquired_room(
+            room,
+            acquired_lock,
+            query_service,
+            lock_service,
+            peer_service,
+            discret_services,
+        )
+        .await
+    }
     #[allow(clippy::too_many_arguments)]
     pub async fn initialise_connection(
         connection_info: &ConnectionInfo,
